@@ -75,6 +75,16 @@ Inductive coll := CBin | CCi.
 
 Definition fold_ci (c : N) : N := if (97 <=? c)%N && (c <=? 122)%N then (c - 32)%N else c.
 
+(* utf8mb4_0900_ai_ci on the generator's alphabet: case-insensitive on ASCII letters and accent-insensitive on the two
+   accented letters that occur (U+00E8, U+00E9 = C3 A8 / C3 A9 compare equal to 'e') *)
+Fixpoint fold_str (s : str) : str :=
+  match s with
+  | 195%N :: 168%N :: r => 69%N :: fold_str r
+  | 195%N :: 169%N :: r => 69%N :: fold_str r
+  | c :: r => fold_ci c :: fold_str r
+  | [] => []
+  end.
+
 Fixpoint str_cmp (a b : str) : comparison :=
   match a, b with
   | [], [] => Eq
@@ -89,7 +99,7 @@ Definition val_cmp (c : coll) (a b : val) : comparison :=
   | VNull, _ => Lt
   | _, VNull => Gt
   | VInt x, VInt y => Z.compare x y
-  | VStr x, VStr y => match c with CBin => str_cmp x y | CCi => str_cmp (map fold_ci x) (map fold_ci y) end
+  | VStr x, VStr y => match c with CBin => str_cmp x y | CCi => str_cmp (fold_str x) (fold_str y) end
   | VInt _, VStr _ => Lt
   | VStr _, VInt _ => Gt
   end.
